@@ -26,7 +26,7 @@ type scriptFacts struct {
 var scriptFreeAudit = map[string]string{
 	// (function name → reason it cannot run user code although the call graph says it might)
 	"(*templatedObject).getOwnPropStr": "materialises one property of an intrinsic object from its objectTemplate: the call graph merges all ~700 property initialisers behind `f(o.val.runtime)`; they build fresh intrinsic values (newNativeFunc, valueProp, a new base object with a nil prototype filled through setOwnStr) and have no handle on user-visible objects, so no user code can run",
-	"(*destructKeyedSource).w": "ToObject of the wrapped destructuring source: an object is returned as is, a primitive is wrapped in its intrinsic wrapper object; instantiating intrinsic prototypes from templates runs no user code (the call graph only reaches user code through objectImpl._putProp, whose reflect-backed implementation is never the kind being built)",
+	"(*destructKeyedSource).w":         "ToObject of the wrapped destructuring source: an object is returned as is, a primitive is wrapped in its intrinsic wrapper object; instantiating intrinsic prototypes from templates runs no user code (the call graph only reaches user code through objectImpl._putProp, whose reflect-backed implementation is never the kind being built)",
 }
 
 // ScriptFreeAudit exposes the audited table (listed as assumptions in evidence).
